@@ -141,7 +141,11 @@ class Job:
         self.label = label or " ".join(argv)
 
     def cmd(self):
-        return self.cfg.run_prefix() + self.argv
+        pre = self.cfg.run_prefix()
+        if self.env_extra.get("VERIF_NOLEAK") and self.cfg.tool == "vg":
+            pre = [a for a in pre if not a.startswith("--leak-check") and not a.startswith("--errors-for-leak-kinds")] + []
+            pre.insert(1, "--leak-check=no")
+        return pre + self.argv
 
 
 def classify(job, rc, out, err, timed_out):
